@@ -29,4 +29,16 @@ def qadicDigits (k : Nat) (d : Nat) : List Nat :=
   let b := 2 ^ bits k
   (List.range (2 * k - 1)).map (fun i => (d / b ^ i) % b)
 
+
+/-- `maxdot()`: `_maxn = (_BASE - 1)/(P-1)/(P-1)/e` (after repair C05_6) — the number of products that may be accumulated -/
+def maxdot (p k : Nat) : Nat := (2 ^ bits k - 1) / (p - 1) / (p - 1) / k
+
+/-- pinned tree: `_maxn = _BASE/(P-1)/(P-1)/e` -/
+def maxdotPinned (p k : Nat) : Nat := 2 ^ bits k / (p - 1) / (p - 1) / k
+
+/-- `convert(double&, a)`: the coefficients packed `bits` bits apart (an integer below 2^53, exact in a double) -/
+def pack (k : Nat) : List Nat → Nat
+  | [] => 0
+  | c :: cs => c + pack k cs * 2 ^ bits k
+
 end Givaro.Model.GFqExt
